@@ -999,7 +999,7 @@ class Interp:
             return [(Term("call", (fv,) + tuple(self.B.freeze_term(self, a, st) for a in args) + ((("kw",) + kw,) if kw else ())), st)]
         if isinstance(fv, Opaque) and fv.cls in self.B.EXT_CALLS:
             return self.B.EXT_CALLS[fv.cls](self, args, kwargs, st, node)
-        if isinstance(fv, Opaque) and "." in fv.cls and not fv.cls.startswith("ext:"):
+        if isinstance(fv, Opaque) and "." in fv.cls:
             # an accessor fetched with getattr() / stored in a table and called later:  f = ctx.area; f()  ==  ctx.area()
             base, name = fv.cls.rsplit(".", 1)
             hook = self.probes.get("method:" + base.split(".")[0]) or self.probes.get("method:" + base) or self.probes.get("method:*")
